@@ -68,9 +68,54 @@ fn arb_oin(ironwood: bool) -> BoxedStrategy<OIn> {
         .boxed()
 }
 
+/// m-of-n multisig: (m, n) mostly within 1 <= m <= n <= 4, sometimes up to 9 keys (redeem scripts
+/// above 255 bytes need OP_PUSHDATA2 from n = 8) or 15 (the largest that fits a 520-byte push);
+/// distinct harness keys in arbitrary order; the keys handed to the signing set: all, exactly m,
+/// more than m, m - 1, none.
+fn arb_multisig() -> BoxedStrategy<TSpend> {
+    let arity = prop_oneof![
+        14 => (1usize..=4).prop_flat_map(|n| (1usize..=n, Just(n))),
+        3 => (5usize..=9).prop_flat_map(|n| (1usize..=n, Just(n))),
+        1 => (1usize..=15, Just(15usize)),
+    ];
+    arity
+        .prop_flat_map(|(m, n)| {
+            (
+                Just(m),
+                proptest::sample::subsequence((0u8..16).collect::<Vec<u8>>(), n).prop_shuffle(),
+                Just((0..n as u8).collect::<Vec<u8>>()).prop_shuffle(),
+                prop_oneof![5 => Just(0u8), 4 => Just(1u8), 3 => Just(2u8), 4 => Just(3u8), 1 => Just(4u8)],
+                any::<u8>(),
+            )
+        })
+        .prop_map(|(m, keys, order, class, r)| {
+            let n = keys.len();
+            let take = match class {
+                0 => n,
+                1 => m,
+                2 => {
+                    if n > m {
+                        m + 1 + (r as usize % (n - m))
+                    } else {
+                        n
+                    }
+                }
+                3 => m - 1,
+                _ => 0,
+            };
+            let present = order.iter().take(take).fold(0u16, |acc, pos| acc | 1 << pos);
+            TSpend::P2sh { m: m as u8, keys, present }
+        })
+        .boxed()
+}
+
+fn arb_tspend() -> BoxedStrategy<TSpend> {
+    prop_oneof![20 => Just(TSpend::P2pkh), 18 => arb_multisig(), 1 => Just(TSpend::P2shOther)].boxed()
+}
+
 fn arb_tin() -> BoxedStrategy<TIn> {
-    (0u8..6, arb_value(), prop::bool::weighted(0.04), prop::bool::weighted(0.3))
-        .prop_map(|(key, value, wrong_script, via_info)| TIn { key, value, wrong_script, via_info })
+    (0u8..6, arb_value(), prop::bool::weighted(0.04), prop::bool::weighted(0.3), arb_tspend())
+        .prop_map(|(key, value, wrong_script, via_info, spend)| TIn { key, value, wrong_script, via_info, spend })
         .boxed()
 }
 
@@ -86,8 +131,12 @@ fn arb_tout() -> BoxedStrategy<TOut> {
 }
 
 fn arb_pad(allow_required: bool) -> BoxedStrategy<Pad> {
+    arb_pad_with(if allow_required { 0.15 } else { 0.0 })
+}
+
+fn arb_pad_with(p_required: f64) -> BoxedStrategy<Pad> {
     (
-        prop::bool::weighted(if allow_required { 0.15 } else { 0.0 }),
+        prop::bool::weighted(p_required),
         select(vec![None, None, None, Some(0u8), Some(1), Some(1), Some(2), Some(3), Some(5)]),
     )
         .prop_map(|(required, min)| Pad { required, min })
@@ -239,7 +288,12 @@ pub fn arb_case(max_n: usize, engine: Engine) -> BoxedStrategy<Case> {
             let (mut t_in, t_out, s_in, s_out, o_in, o_out, i_in, i_out) = content;
             // a request without any input can only be balanced with a zero fee: mostly give it one
             if t_in.is_empty() && s_in.is_empty() && o_in.is_empty() && i_in.is_empty() && seed[0] % 8 != 0 {
-                t_in.push(TIn { key: seed[1] % 6, value: 100_000 + seed[2] as u64, wrong_script: false, via_info: seed[3] & 1 == 1 });
+                let spend = if seed[4] % 3 == 0 {
+                    TSpend::P2sh { m: 1 + seed[5] % 3, keys: vec![7 + seed[6] % 3, 10 + seed[7] % 3, 13 + seed[8] % 3], present: 0b111 }
+                } else {
+                    TSpend::P2pkh
+                };
+                t_in.push(TIn { key: seed[1] % 6, value: 100_000 + seed[2] as u64, wrong_script: false, via_info: seed[3] & 1 == 1, spend });
             }
             Case {
                 engine,
@@ -265,6 +319,62 @@ pub fn arb_case(max_n: usize, engine: Engine) -> BoxedStrategy<Case> {
                 key_fault,
                 key_perm,
                 seed,
+            }
+        })
+        .boxed()
+}
+
+/// Requests for `DeferredPcztBuilder`: Orchard and Ironwood content only, no anchors, no version
+/// proposal; target heights mostly where the v6 format is in force, with a share below it
+/// (documented refusal at construction).
+pub fn arb_deferred_case(max_n: usize) -> BoxedStrategy<Case> {
+    let place = prop_oneof![
+        8 => select(vec![40_040u32, 40_041, 45_000, 3_000_000]).prop_map(|h| (0u8, h)),
+        4 => select(vec![100u32, 101, 32_256, 32_257, 40_000]).prop_map(|h| (1u8, h)),
+        1 => select(vec![40_039u32, 40_030, 40_000, 50, 5]).prop_map(|h| (0u8, h)),
+        1 => select(vec![(1u8, 99u32), (1u8, 0), (2u8, 8), (2u8, 100_000)]),
+    ];
+    let content = (
+        opt_vec(0.55, arb_oin(false), max_n),
+        opt_vec(0.5, arb_shout(prop::bool::weighted(0.9).boxed()), max_n),
+        opt_vec(0.45, arb_oin(true), max_n),
+        opt_vec(0.6, arb_shout(Just(false).boxed()), max_n),
+    );
+    (place, content, (arb_pad_with(0.3), arb_pad_with(0.3)), arb_rule(), arb_bal(), any::<u32>(), any::<u8>(), any::<[u8; 32]>())
+        .prop_map(|((layout, height), (mut o_in, o_out, mut i_in, i_out), pads, rule, bal, slot, key_perm, seed)| {
+            // a request without any input can only be balanced with a zero fee: mostly give it one
+            if o_in.is_empty() && i_in.is_empty() && seed[0] % 8 != 0 {
+                let note = OIn { key: seed[1] % 4, internal: seed[2] & 1 == 1, div: seed[3] % 3, value: 100_000 + seed[4] as u64, rho: seed, rseed: [seed[5]; 32], wrong_version: false };
+                if seed[6] & 1 == 0 {
+                    i_in.push(note);
+                } else {
+                    o_in.push(note);
+                }
+            }
+            Case {
+            engine: Engine::Deferred,
+            layout,
+            height,
+            propose: None,
+            sap_anchor: Anc::None,
+            orc_anchor: Anc::None,
+            iro_anchor: Anc::None,
+            orc_pad: pads.0,
+            iro_pad: pads.1,
+            rule,
+            t_in: vec![],
+            t_out: vec![],
+            s_in: vec![],
+            s_out: vec![],
+            o_in,
+            o_out,
+            i_in,
+            i_out,
+            bal,
+            slot,
+            key_fault: KeyFault::None,
+            key_perm,
+            seed,
             }
         })
         .boxed()
